@@ -73,5 +73,13 @@ UNIT = {
             ("macro_fn", "list_loc_as_cell", "list_loc_as_cell", "R5"),
             ("macro_fn", "pstr_loc_as_cell", "pstr_loc_as_cell", "R5"),
             ("macro_fn", "char_as_cell", "char_as_cell", "R5")]),
+        # HeapWriter::write_with and the two string allocators that compose reserve / write_with / push_pstr
+        {"block": "struct", "header": r"struct HeapSectionWriteResult < R >", "file": F_H, "rewrites": ["strip_type_head"] + R7},
+        {"fn": "write_with", "impl": r"impl < 'a > HeapWriter < 'a >", "file": F_H, "emit_name": "HeapWriter_write_with",
+         "rewrites": STD + [("replace", "fn write_with<R>(", "fn write_with<R, F: FnOnce(&mut ReservedHeapSection) -> R>(", "R7"),
+                            ("replace", "writer: impl FnOnce(&mut ReservedHeapSection) -> R", "writer: F", "R7")],
+         "wrap_pre": "impl<'a> HeapWriter<'a> {\n", "wrap_post": "}\n"},
+        m("Heap", "allocate_pstr", extra=[("replace", "src: &str", "src: StrRef", "R7"), ("macro_fn", "empty_list_as_cell", "empty_list_as_cell", "R5")]),
+        m("Heap", "allocate_cstr", extra=[("replace", "src: &str", "src: StrRef", "R7"), ("macro_fn", "empty_list_as_cell", "empty_list_as_cell", "R5")]),
     ],
 }
